@@ -258,6 +258,65 @@ def law_replace(d, rng):
             fails.append(('replace.frame', 'replace_expr modified its receiver', ('replace', d, sorted(mp.items()))))
     return fails
 
+def subst_desc(d, K, R):
+    """reference term substitution on descriptions: every occurrence of the sub-description K becomes R"""
+    if d == K: return R
+    k = d[0]
+    f = lambda x: subst_desc(x, K, R)
+    if k == 'mem': return ('mem', f(d[1]), d[2])
+    if k == 'smem': return ('smem', d[1] if isinstance(d[1], str) else f(d[1]), f(d[2]), d[3])
+    if k == 'op': return ('op', d[1], tuple(f(x) for x in d[2]))
+    if k == 'slice': return ('slice', f(d[1]), d[2], d[3])
+    if k == 'compose': return ('compose', tuple((f(x[0]), x[1], x[2]) for x in d[1]))
+    if k == 'cond': return ('cond', f(d[1]), f(d[2]), f(d[3]))
+    if k == 'aff': return ('aff', f(d[1]), f(d[2]))
+    return d
+
+def law_replace_struct(d):
+    """replace_expr with keys that are not read-set members: a composite sub-expression, a constant, and (for assignments) an identifier that
+       occurs only in the destination.  The result must be the term substitution (structural reference; the replacement is a fresh identifier,
+       so bottom-up and top-down replacement coincide)."""
+    from bounded import gen
+    fails = []
+    subs = sub_descs(d)
+    body = subs[1:]
+    keys = []
+    def width(x):
+        if x[0] == 'smem': return x[3]
+        if x[0] == 'aff': return None
+        try: return gen.dwidth(x)
+        except Exception: return None
+    comp = [x for x in body if x[0] in ('op', 'slice', 'cond', 'compose') and width(x)]
+    if comp: keys.append(comp[0]); keys.append(comp[-1])
+    ints = [x for x in body if x[0] == 'int']
+    if ints: keys.append(ints[0])
+    if d[0] == 'aff':
+        src_ids = set(x for x in sub_descs(d[2]) if x[0] == 'id')
+        keys += [x for x in sub_descs(d[1]) if x[0] == 'id' and x not in src_ids][:2]
+        keys += [x for x in sub_descs(d[2]) if x[0] == 'id'][:1]
+    done = set()
+    for K in keys:
+        if K in done: continue
+        done.add(K)
+        w = width(K)
+        if not w: continue
+        R = ('id', 'r%d' % w, w)
+        if d[0] == 'aff' and K == d[1] and K[0] != 'id': continue
+        ref = subst_desc(d, K, R)
+        if ref[0] == 'aff' and ref[1][0] == 'slice': continue      # the constructor rewrites slice destinations: other clause (C11)
+        e = build(d)
+        try:
+            r = e.replace_expr({build(K): build(R)})
+            got = undesc(r)
+        except Exception as ex:
+            fails.append(('replace.noraise', 'replace_expr({%s: %s}) raised %s: %s' % (dstr(K), dstr(R), type(ex).__name__, ex), ('replace-struct', d))); continue
+        if got != ref:
+            fails.append(('replace.struct', 'replace_expr does not denote substitution: %s with {%s: %s} -> %s, the substitution gives %s' % (
+                build(d), dstr(K), dstr(R), r, dstr(ref)), ('replace-struct', d)))
+        if undesc(e) != d:
+            fails.append(('replace.frame', 'replace_expr modified its receiver', ('replace-struct', d)))
+    return fails
+
 def law_pairs(ds):
     """equivalence laws on a pool of trees: symmetry, transitivity, eq => hash, eq => same structure class / same value"""
     fails = []
@@ -308,6 +367,8 @@ def replay(law, args):
             return 1 if not (build(args[1]) == build(args[2])) else 0
     elif kind == 'replace':
         fails = law_replace(args[1], random.Random(0))
+    elif kind == 'replace-struct':
+        fails = law_replace_struct(args[1])
     else:
         fails = law_tree(args[1])
     for f in fails:
@@ -324,8 +385,8 @@ def _work(job):
     try:
         if kind == 'tree':
             for d in items:
-                fs = law_tree(d) + law_replace(d, rng)
-                out['n'] += 7
+                fs = law_tree(d) + law_replace(d, rng) + law_replace_struct(d)
+                out['n'] += 9
                 for f in fs:
                     if f[1] is None: out['unknown'] += 1
                     else: out['fails'].append((dstr(d),) + f)
